@@ -360,6 +360,12 @@ Theorem gabor_unit_l2_norm_freq : forall std : R, 0 < std ->
 Proof. exact gabor_unit_l2_norm_freq_l. Qed.
 Print Assumptions gabor_unit_l2_norm_freq.
 
+Theorem gabor_centre_gain_is_integral : forall (l2 : bool) (std : R), 0 < std ->
+  is_RInt_gen (fun t => gabor_ir_abs l2 std t)
+              (Rbar_locally m_infty) (Rbar_locally p_infty) (exp (gabor_fr_const_term l2 std)).
+Proof. exact gabor_centre_gain_is_integral_l. Qed.
+Print Assumptions gabor_centre_gain_is_integral.
+
 Theorem gabor_ir_fr_consistent :
   forall (l2 : bool) (std : R),
        0 < std ->
